@@ -13,6 +13,7 @@
 #include <typeinfo>
 #include <type_traits>
 
+namespace zoo { inline bool vf_isbase(int base, int derived); }   // generated: is event type `base` a strict base class of `derived`
 namespace vf {
 
 struct Nondeterminism { std::string what; };
@@ -95,6 +96,9 @@ inline Env& env() { static Env e; return e; }
 // Events. Every event carries a serial and a payload word; copies are counted per serial so that
 // "stored somewhere inside the library" is observable without trusting the library's own counters.
 struct EvBase {
+    // dynamic type of the event object (overridden by every generated event type): a behaviour that is handed a base-class
+    // reference must still see the object that was submitted, not a sliced copy
+    virtual int dyn() const { return -1; }
     int serial; int pay;
     EvBase() : serial(-1), pay(0) {}
     EvBase(int s, int p) : serial(s), pay(p) { if (serial >= 0) env().live[serial]++; }
@@ -130,7 +134,10 @@ template <class E> struct evinfo<E, typename std::enable_if<std::is_base_of<EvBa
     static int eid(const E&) { return E::eid; }
     static int serial(const E& e) { return e.serial; }
     static int pay(const E& e) { return e.pay; }
+    static int dyn(const E& e) { return e.dyn(); }
 };
+template <class E, class = void> struct has_dyn : std::false_type {};
+template <class E> struct has_dyn<E, typename vf_void<decltype(evinfo<E>::dyn(std::declval<const E&>()))>::type> : std::true_type {};
 
 // hook for Kleene rows: generated code resolves an any to (eid, serial, pay, exact-type-ok)
 struct AnyInfo { int eid; int serial; int pay; };
@@ -139,6 +146,11 @@ template <class E> inline std::string evtok(const E& e) {
     int id = evinfo<E>::eid(e), s = evinfo<E>::serial(e);
     std::string r = std::to_string(id) + "#" + std::to_string(s);
     if (s >= 0 && evinfo<E>::pay(e) != paycheck(s)) r += "!BADPAY";
+    if constexpr (has_dyn<E>::value) {
+        // the object's dynamic type must be the type that was submitted under this serial (no slicing on the way)
+        // (an exit point legitimately converts the event into another type: only a base of the submitted type counts)
+        if (s >= 0) { int d = evinfo<E>::dyn(e); auto it = env().serial_type.find(s); if (d >= 0 && it != env().serial_type.end() && d != it->second && zoo::vf_isbase(d, it->second)) r += "!BADPAY-sliced-dyn" + std::to_string(d); }
+    }
     return r;
 }
 
